@@ -742,3 +742,26 @@ Proof.
   rewrite (set_cookie_text validate r t b Hv He) in Hm.
   exact (emitted_samesite_plain validate _ line Hm).
 Qed.
+
+(* ---------------------------------------------------------------- known finding: tokens that are refused all the same *)
+(* name_accepted is rfc_token minus the names webob's own parser would not read back as a cookie: a leading '$'
+   and the (case-insensitive) attribute names.  Those are tokens, and they are refused. *)
+Definition plain_request (name : str) : request :=
+  {| r_name := name; r_value := CBytes (H "76"%string); r_max_age := MaNone; r_path := None; r_domain := None;
+     r_secure := false; r_httponly := false; r_comment := None; r_samesite := None; r_date := [] |}.
+
+Theorem token_names_refused_refuted :
+  (rfc_token (H "246e"%string) = true /\ make_cookie true (plain_request (H "246e"%string)) = Raise AssertionError)
+  /\ (rfc_token (H "50617468"%string) = true /\ make_cookie true (plain_request (H "50617468"%string)) = Raise AssertionError)
+  /\ (rfc_token (H "4d41582d414745"%string) = true /\ make_cookie true (plain_request (H "4d41582d414745"%string)) = Raise AssertionError).
+Proof. vm_compute. repeat split; reflexivity. Qed.
+
+(* ... and these are the only tokens that are refused *)
+Lemma refused_tokens_only k : rfc_token k = true -> name_accepted k = false ->
+  (exists t, k = 36 :: t) \/ mem_str (blower k) c_keys = true.
+Proof.
+  unfold name_accepted. intros Ht Hn. rewrite Ht in Hn. cbn [andb] in Hn.
+  destruct k as [|c t]; [discriminate|].
+  destruct (c =? 36) eqn:Ec; [left; exists t; apply N.eqb_eq in Ec; subst; reflexivity|].
+  right. cbn [negb andb] in Hn. destruct (mem_str (blower (c :: t)) c_keys); [reflexivity|discriminate].
+Qed.
